@@ -2,6 +2,7 @@ import CoapVerif.Lemmas.MsgLayer
 import CoapVerif.Lemmas.MsgLayerX
 import CoapVerif.Lemmas.MsgHold
 import CoapVerif.Lemmas.MsgLedger
+import CoapVerif.Lemmas.MsgLayerW08
 /-
 C08 — NSTART: a session never has more than NSTART Confirmable messages in flight; messages beyond the limit
 (and anything submitted before the session is established) are held and later transmitted exactly once each, in
@@ -457,5 +458,107 @@ example :
 
 /-- `x_agrees_with_base`'s new hypothesis holds for every line without DTLS sessions -/
 example : ∀ s, (initX 1000 [{ nstart := 1 }]).proto s = .udp := proto_udp_of_nil _ rfl
+
+/-! ### round 6 — failing socket writes (seed C08-13): the write-failure model `Coap.MsgW` (Model/MsgLayerW.lean)
+
+`coap_socket_send()` may return -1 for any datagram (ECONNREFUSED after an ICMP error, ENOBUFS, EPERM, EAGAIN).  The model
+takes the list `wf` of what the next writes return as ONE MORE INPUT; the theorems below hold for EVERY such list.  An
+`Out.tx` of this model is a write ATTEMPT.  Three places write to the socket and each treats a failure differently:
+`coap_send` refuses the message (nothing queued, nothing counted), `coap_retransmit` keeps the message, its deadline and
+its slot, and `coap_session_connected` - where the message has already left the delay queue and `coap_wait_ack` queues it
+for retransmission whatever the write returned - counts it whatever the write returned, then stops draining. -/
+
+open Coap.MsgW in
+/-- (1w/2w, inductive step) the invariant `WF` is kept by every event whatever the socket does. -/
+theorem wf_step_w (lw : LW) (e : Ev) (h : WF lw.l) : WF (stepW lw e).l := MsgW.wf_stepW lw e h
+
+open Coap.MsgW in
+/-- (1w/2w) For every event sequence AND every pattern of failing socket writes: `con_active` of every session is
+exactly the number of its Confirmables in the send queue, and that number never exceeds NSTART. -/
+theorem con_active_eq_inflight_le_nstart_w (ss : List Sess) (t0 : Nat) (wf : List Bool) (evs : List Ev) (s : Nat)
+    (hss : ∀ se ∈ ss, se.conActive = 0 ∧ se.delayq = [] ∧ se.nstart ≤ 255) (hs : s < ss.length) :
+    ((runW (initW t0 ss wf) evs).l.getS s).conActive = inflight (runW (initW t0 ss wf) evs).l s ∧
+    inflight (runW (initW t0 ss wf) evs).l s ≤ ((runW (initW t0 ss wf) evs).l.getS s).nstart := by
+  have h := MsgW.wf_runW evs (initW t0 ss wf) (show WF (initW t0 ss wf).l from wf_init t0 ss hss)
+  have hlt : s < (runW (initW t0 ss wf) evs).l.sess.length := by
+    rw [(MsgW.runW_star evs (initW t0 ss wf) s hs).len]; exact hs
+  exact ⟨(h.2 s hlt).1, (h.2 s hlt).2.1⟩
+
+open Coap.MsgW in
+/-- (8) What the slot of a released Confirmable depends on: NOT on the write.  One round of the loop of
+`coap_session_connected` for a held Confirmable `n` - for every state, every oracle: `con_active` goes up by one, `n` has
+left the delay queue, is in the send queue (one more node of the session) and its write was attempted exactly once.
+(A transcription that counts the message only when the write succeeded cannot satisfy this, nor `wf_step_w`.) -/
+theorem released_con_takes_slot_whatever_the_write_returns (lw : LW) (s : Nat) (n : Node) (rest : List Node)
+    (hs : s < lw.l.sess.length) (hc : n.con = true) :
+    ((drainRound lw s n rest).2.l.getS s).conActive = ((lw.l.getS s).conActive + 1) % 256 ∧
+    ((drainRound lw s n rest).2.l.getS s).delayq = rest ∧
+    inflight (drainRound lw s n rest).2.l s = inflight lw.l s + 1 ∧
+    (drainRound lw s n rest).2.l.out = Out.tx lw.l.now s n.mid n.cnt true :: lw.l.out :=
+  MsgW.drainRound_con_takes_slot lw s n rest hs hc
+
+open Coap.MsgW in
+/-- (4w-a) The drain loop with `if (bytes_written < 0) break;` is the loop of the base model stopped early: whatever
+writes fail, it attempts exactly the first `k` held messages - once each, in submission order, nothing else - and leaves
+the others held, in order (`drain_fifo_exactly_once` applies to `drain k`). -/
+theorem drain_with_failing_writes_is_drain_stopped_early (fuel : Nat) (lw : LW) (s : Nat) :
+    ∃ k, (drainW fuel lw s).l = drain k lw.l s := MsgW.drainW_is_drain fuel lw s
+
+open Coap.MsgW in
+/-- (4w) For EVERY event and every write oracle the delay queue of every session evolves only by `DqStep`s (append at
+the END without transmission / the HEAD leaves exactly when its write is attempted, once / cleared by the session's
+failure with one NACK per held Confirmable): a failing write lets nobody overtake, loses and duplicates nothing. -/
+theorem held_fifo_exactly_once_w (lw : LW) (e : Ev) (s : Nat) (hs : s < lw.l.sess.length) :
+    Star (DqStep s) lw.l (stepW lw e).l := MsgW.stepW_star lw e s hs
+
+open Coap.MsgW in
+/-- (4w) lifted to event sequences. -/
+theorem held_fifo_exactly_once_w_run (lw : LW) (evs : List Ev) (s : Nat) (hs : s < lw.l.sess.length) :
+    Star (DqStep s) lw.l (runW lw evs).l := MsgW.runW_star evs lw s hs
+
+open Coap.MsgW in
+/-- (6w, PARTIAL) no idle hold, as long as no FIRST transmission failed in the write (`dev = false`; failing
+retransmissions are covered).  The full statement - without the hypothesis on `dev` - is FALSE for the code as it is:
+`coap_session_connected` stops draining at the first failing write (`if (bytes_written < 0) break;`), so the messages
+behind the failed one wait until the NEXT exchange of the session finishes although a slot may be free (NSTART ≥ 2), and
+for ever when the failed write was a NON's and no Confirmable of the session is in flight (open finding
+`drain_break_strands_delayed`, KNOWN_FINDINGS.txt; witness below). -/
+theorem no_idle_hold_w_partial (ss : List Sess) (t0 : Nat) (wf : List Bool) (evs : List Ev) (s : Nat)
+    (hss : ∀ se ∈ ss, se.conActive = 0 ∧ se.delayq = [] ∧ se.nstart ≤ 255) (hs : s < ss.length)
+    (hdev : (runW (initW t0 ss wf) evs).dev = false)
+    (he : ((runW (initW t0 ss wf) evs).l.getS s).est = true) :
+    ∀ n ∈ ((runW (initW t0 ss wf) evs).l.getS s).delayq.head?,
+      n.con = true ∧ inflight (runW (initW t0 ss wf) evs).l s = ((runW (initW t0 ss wf) evs).l.getS s).nstart := by
+  have ht := (MsgW.runW_tracks evs (initW t0 ss wf) hdev).2
+  have hl : (initW t0 ss wf).l = init t0 ss := rfl
+  rw [ht, hl] at he ⊢
+  exact no_idle_hold ss t0 evs s hss hs he
+
+open Coap.MsgW in
+/-- the scenario of seed C08-13 in M: NSTART = 1, Confirmables 1, 2, 3; the ACK for 1 arrives and the write of the
+released 2 FAILS (second entry of the oracle): 2 is in the send queue AND counted (`con_active` = 1 = in flight), 3 is
+still held (the failed attempt is output number 4); a fourth Confirmable submitted now is HELD behind 3 (nobody
+overtakes), nothing is written for it. -/
+example :
+    let lw := runW (initW 1000 [{ nstart := 1 }] [false, true])
+      [.submit 0 true 1 0, .submit 0 true 2 0, .submit 0 true 3 0, .rxAck 0 1]
+    let lw' := stepW lw (.submit 0 true 4 0)
+    (lw.l.getS 0).conActive = 1 ∧ inflight lw.l 0 = 1 ∧ (lw.l.q.nodes.map (·.mid)) = [2] ∧
+    ((lw.l.getS 0).delayq.map (·.mid)) = [3] ∧ lw.failed = [4] ∧
+    ((lw'.l.getS 0).delayq.map (·.mid)) = [3, 4] ∧ lw'.l.out = Out.sub (some 4) :: lw.l.out := by decide
+
+open Coap.MsgW in
+/-- the exclusion in `no_idle_hold_w_partial` is necessary (`drain_break_strands_delayed`): a NON and a Confirmable are
+submitted before the session is established; it comes up, the write of the NON fails: the session is established, holds
+the Confirmable, and NOTHING is in flight (NSTART = 2) - `dev` is set. -/
+example :
+    let lw := runW (initW 1000 [{ nstart := 2 }] [true])
+      [.hold 0, .submit 0 false 101 0, .submit 0 true 102 0, .connect 0]
+    (lw.l.getS 0).est = true ∧ ((lw.l.getS 0).delayq.map (·.mid)) = [102] ∧ inflight lw.l 0 = 0 ∧ lw.dev = true := by
+  decide
+
+/-- the hypotheses of `released_con_takes_slot_whatever_the_write_returns` are satisfiable (write failing) -/
+example : (0 : Nat) < (MsgW.initW 0 [{}] [true]).l.sess.length ∧
+    (MsgW.initW 0 [{}] [true]).wf.headD false = true := by decide
 
 end Coap.C08
